@@ -40,6 +40,10 @@ TRUSTED = {
 }
 
 
+# properties whose claim is deliberately not "proof" even when every obligation is discharged (schedule quantifiers)
+FORCED_LEVEL = {"C19": "other", "C13": "other"}
+
+
 def _load_contract_modules() -> None:
     for f in sorted(glob.glob(os.path.join(VERIF, "contracts", "c*.py"))):
         importlib.import_module("contracts." + os.path.basename(f)[:-3])
@@ -198,6 +202,8 @@ def run_check(prop: str, tier: str, only: str | None = None, jobs: int = 16, ver
     n_obl_reported = n_obl - n_known_obl
     proved_all = n_obl_reported > 0 and n_dis >= n_obl_reported and not undecided
     level_cfg = getattr(standin, "LEVEL", None) if standin is not None else None
+    if level_cfg is None and prop in FORCED_LEVEL:
+        level_cfg = FORCED_LEVEL[prop]
     level = level_cfg or ("proof" if (proved_all and not bounded) else "other")
     if level == "proof" and not proved_all:
         level = "other"
